@@ -96,7 +96,8 @@ def main(ctx):
               "dup_after_result", "dup_after_error", "completed_ok", "completed_err",
               "reentrant_execs", "twosession_execs", "flat2_decorated_register",
               "flat2_decorated_subscribe", "flat2_encrypted_with_options", "unrequested_progress:ignored",
-              "flat2_request_from_callback", "cancelled_call_cases"):
+              "flat2_request_from_callback", "cancelled_call_cases", "given_up_request_cases",
+              "codec_progressive_cases"):
         ctx.require(n)
 
 
@@ -1322,6 +1323,125 @@ def _job_flat2(a, env, seed):
             exc = l1.deliver(M.Result(req2, args=["second"]))
             if exc is not None or l1.fstate("c2")[:2] != ("ok", "second") and l1.fstate("c2")[0] != "ok":
                 bad("call-after-cancel", "call after a cancelled one: raised %r, state %s" % (exc, l1.fbrief("c2")))
+    # ---- (5) the application gives up on a request of ANY kind (cancels the Deferred / Future, e.g.
+    # asyncio.wait_for timing out) and the router's reply - success or ERROR - arrives afterwards:
+    # it is the reply to that request, completes nothing a second time, raises nothing, and the next
+    # request of the session is served normally
+    def issue(l1_, kind_):
+        s_ = l1_.session
+        if kind_ == "publish":
+            return s_.publish("com.giveup.t", 1, options=T.PublishOptions(acknowledge=True))
+        if kind_ == "subscribe":
+            return s_.subscribe(lambda *a_, **k_: None, "com.giveup.t")
+        if kind_ == "register":
+            return s_.register(lambda *a_, **k_: None, "com.giveup.p")
+        raise ValueError(kind_)
+    reqcls = {"publish": M.Publish, "subscribe": M.Subscribe, "register": M.Register,
+              "unsubscribe": M.Unsubscribe, "unregister": M.Unregister}
+    okreply = {"publish": lambda r_: M.Published(r_, 77001), "subscribe": lambda r_: M.Subscribed(r_, 77002),
+               "register": lambda r_: M.Registered(r_, 77003), "unsubscribe": lambda r_: M.Unsubscribed(r_),
+               "unregister": lambda r_: M.Unregistered(r_)}
+    for kind in ("publish", "subscribe", "register", "unsubscribe", "unregister"):
+        for reply in ("ok", "error"):
+            l1 = H.L1().join()
+            s = l1.session
+            if kind in ("unsubscribe", "unregister"):
+                base_kind = "subscribe" if kind == "unsubscribe" else "register"
+                d0 = issue(l1, base_kind)
+                l1.track("base", d0)
+                l1.settle()
+                req0 = [m for m in l1.transport.sent if isinstance(m, reqcls[base_kind])][-1].request
+                l1.deliver(okreply[base_kind](req0))
+                l1.settle()
+                st0 = l1.fstate("base")
+                if st0[0] != "ok":
+                    bad("request-future", "%s did not complete: %r" % (base_kind, l1.fbrief("base")))
+                    continue
+                obj = st0[1]
+                d = obj.unsubscribe() if kind == "unsubscribe" else obj.unregister()
+            else:
+                d = issue(l1, kind)
+            l1.track("g", d)
+            l1.settle()
+            req = [m for m in l1.transport.sent if isinstance(m, reqcls[kind])][-1].request
+            try:
+                d.cancel()
+            except Exception as e:
+                bad("api-raised", "cancelling a pending %s raised %r" % (kind, e))
+            l1.settle()
+            m = okreply[kind](req) if reply == "ok" else M.Error(reqcls[kind].MESSAGE_TYPE, req, "wamp.error.not_authorized")
+            exc = l1.deliver(m)
+            l1.settle()
+            evals += 1
+            stats["given_up_request_cases"] += 1
+            if exc is not None:
+                bad("reply-to-given-up-request-rejected", "%s whose result the application cancelled: the late %s "
+                    "raised %s" % (kind, type(m).__name__, H.exc_brief(exc)))
+            loop_errors = list(getattr(getattr(l1, "loop", None), "errors", []) or [])
+            if loop_errors:
+                bad("escape", "%s given up, late %s: %r" % (kind, type(m).__name__, [
+                    repr(c.get("exception") or c.get("message"))[:120] for c in loop_errors[:1]]))
+            d2 = s.call("com.giveup.next", 2)
+            l1.track("n", d2)
+            l1.settle()
+            req2 = [m_ for m_ in l1.transport.sent if isinstance(m_, M.Call)][-1].request
+            exc = l1.deliver(M.Result(req2, args=["next"]))
+            if exc is not None or l1.fstate("n")[0] != "ok":
+                bad("call-after-given-up-request", "call after a given-up %s: raised %r, state %s" % (
+                    kind, exc, l1.fbrief("n")))
+    # ---- (6) progressive results while a payload codec is active: decodable chunks reach on_progress
+    # decoded; a chunk the codec cannot decode is not the reply that completes the call - the call
+    # stays pending and completes with the final RESULT (which is no protocol violation)
+    from props.c10 import JsonEnvelopeCodec
+    for chunks in (["good"], ["bad"], ["good", "bad", "good"], ["bad", "bad"], ["mismatch"]):
+        for final in ("encoded", "error"):
+            l1 = H.L1().join()
+            s = l1.session
+            s.set_payload_codec(JsonEnvelopeCodec())
+            prog = []
+            d = s.call("com.codec.p", 1, options=T.CallOptions(on_progress=lambda *a_, **k_: prog.append((a_, k_))))
+            l1.track("c", d)
+            l1.settle()
+            req = [m for m in l1.transport.sent if isinstance(m, M.Call)][-1].request
+            want_prog = []
+            problems = []
+            for i, ch in enumerate(chunks):
+                enc = JsonEnvelopeCodec().encode(False, "com.codec.p" if ch != "mismatch" else "com.codec.other",
+                                                 [i, "chunk"], {"n": i})
+                payload = enc.payload if ch != "bad" else b"\xff{ not what the codec wrote"
+                exc = l1.deliver(M.Result(req, payload=payload, progress=True, enc_algo=enc.enc_algo,
+                                          enc_serializer=enc.enc_serializer))
+                l1.settle()
+                if ch == "good":
+                    want_prog.append(((i, "chunk"), {"n": i}))
+                if exc is not None:
+                    problems.append("progressive RESULT #%d (%s) raised %s" % (i, ch, H.exc_brief(exc)))
+                if l1.fstate("c")[0] != "pending":
+                    problems.append("progressive RESULT #%d (%s) completed the call: %s" % (i, ch, l1.fbrief("c")))
+                    break
+            if not problems:
+                if final == "encoded":
+                    enc = JsonEnvelopeCodec().encode(False, "com.codec.p", ["final"], None)
+                    fm = M.Result(req, payload=enc.payload, enc_algo=enc.enc_algo, enc_serializer=enc.enc_serializer)
+                else:
+                    fm = M.Error(M.Call.MESSAGE_TYPE, req, "com.codec.failed", args=["f"])
+                exc = l1.deliver(fm)
+                l1.settle()
+                st = l1.fstate("c")
+                if exc is not None:
+                    problems.append("the final %s raised %s" % (type(fm).__name__, H.exc_brief(exc)))
+                elif final == "encoded" and st[0] != "ok":
+                    problems.append("call not completed by its final RESULT: %s" % (l1.fbrief("c"),))
+                elif final == "error" and st[0] != "err":
+                    problems.append("call not failed by its ERROR: %s" % (l1.fbrief("c"),))
+            got_prog = [(tuple(a_), dict(k_)) for a_, k_ in prog]
+            if got_prog != want_prog:
+                problems.append("on_progress got %r expected %r" % (got_prog, want_prog))
+            evals += 1
+            stats["codec_progressive_cases"] += 1
+            for pr in problems[:2]:
+                bad("codec-progressive", "payload codec active, call with on_progress, chunks %s then final %s: %s" % (
+                    chunks, final, pr))
     return {"evals": evals, "viol": viol, "stats": dict(stats, flat_execs=evals, transitions=evals),
             "samples": [{"kind": "flat2", "cases": evals}]}
 
